@@ -18,7 +18,7 @@ RULE = ("(a) enumerated: every row of every PDK device table (sample, Sky130, GF
         "when the readme table and the walker's table agree on it. (b) Hypothesis: 1-6 such requests mixed with unmapped instances (ideal "
         "primitives, external modules, sub-modules) at drawn depths of a hierarchy with shared sub-modules, compiled once, twice, and via "
         "hdl21.pdk.compile by default / by name / by module with one or several PDKs registered, each configuration in its own pristine "
-        "process. (c) every logic cell of sky130_hdl21.digital_cells.* and gf180_hdl21.digital_cells.* with all ports connected. Oracle: "
+        "process. (c) every logic cell of sky130_hdl21.digital_cells.* and gf180_hdl21.digital_cells.* with all ports connected, each alone and each library as a whole in one package. Oracle: "
         "hierarchy, instance names and conns (same keys, same objects) unchanged; unmapped instances keep their target object; each mapped "
         "target is an ExternalModuleCall of a documented row matching the request (exactly the named row for a model name); given "
         "w/l/nf/mult appear unchanged under the PDK's parameter names, defaulted ones are non-None; every instance connects exactly its "
@@ -599,6 +599,43 @@ def cells_batch(items):
     return res
 
 
+def library_whole(lib):
+    """In a child: ONE module instantiating every logic cell of a library, exported and closure-checked - two cells that
+    share an exported (domain, name), or clash in any other way, only show when they meet in one package."""
+    import importlib
+    env.setup_paths(pdks=True)
+    import hdl21 as h
+    res = core.Result()
+    case = {"library": lib}
+    fails = []
+    try:
+        m = h.Module(name="All_" + lib.split(".")[-1])
+        n = 0
+        for k, em in sorted(vars(importlib.import_module(lib)).items()):
+            if not isinstance(em, h.ExternalModule):
+                continue
+            try:
+                call = em()
+            except Exception:
+                call = em(em.paramtype()) if em.paramtype is not dict else em({})
+            inst = call()
+            for p in em.port_list:
+                inst.connect(p.name, m.add(h.Signal(name="n%d_%s" % (n, p.name), width=p.width)))
+            m.add(inst, name="u%d" % n)
+            n += 1
+        pkg = h.to_proto(m)
+        for k, t in pkgread.closure_errors(pkg):
+            fails.append(("library_closure:" + k, t))
+        if len(pkg.ext_modules) != n and not fails:
+            fails.append(("library_declares_fewer_cells", "%d cells instantiated, %d external modules declared" % (n, len(pkg.ext_modules))))
+    except Exception as e:
+        fails.append(("library_fails:%s" % type(e).__name__, str(e)[-300:]))
+    for sg, d in fails:
+        res.fail(sg, case, d)
+    res.case(case, True, ["logic_cell_library_as_a_whole", lib.split(".")[0]], key="whole:" + lib)
+    return res
+
+
 # ---- C06 feed: compiled designs as closure-check items -------------------------------------------
 
 C06_ITEMS = [{"pdks": [p], "target": p, "how": "direct", "twice": False, "shape": {"depth": 2, "levels": [0, 1, 1]},
@@ -692,6 +729,13 @@ def shard(idx, n, tier):
                 res.harness_error("cells batch: %s %s %s" % (r[1], r[2], r[3][-500:]))
             else:
                 res.merge(r)
+    for k, lib in enumerate(LIBS):
+        if k % n == idx:
+            r = par.pristine(library_whole, lib, timeout=900)
+            if par.is_exc(r):
+                res.harness_error("library %s: %s %s %s" % (lib, r[1], r[2], r[3][-500:]))
+            else:
+                res.merge(r)
     # (b)
     import hypothesis
     from hypothesis import given, settings, HealthCheck, Phase, strategies as st
@@ -773,6 +817,11 @@ def lambda_tables(p):
 
 
 def replay(case):
+    if "library" in case:
+        r = par.in_child(library_whole, case["library"])
+        if par.is_exc(r):
+            raise RuntimeError(r[2])
+        return [(sig, lst[0]["detail"]) for sig, lst in r.failures.items()]
     if "cell" in case:
         lib, name = case["cell"].rsplit(".", 1)
         r = par.in_child(cells_batch, [(lib, name)])
